@@ -112,8 +112,8 @@ def run(ctx):
     for fmt in ("&#%d", "&#x%x", "&#X%X", "&#x%X", "&#0000%d"):
         for semi in (True, False):
             for lo, hi in spans:
-                if ctx.quick and (fmt, semi) not in (("&#%d", True), ("&#x%x", False), ("&#X%X", True)) and lo > 0x3000:
-                    continue
+                if (fmt, semi) not in (("&#%d", True), ("&#x%x", False), ("&#X%X", True)) and lo > (0x3000 if ctx.quick else 0xFFFF):
+                    continue          # the other spellings share the digit-accumulation code: BMP only
                 jobs.append((fmt, lo, hi, semi))
     tables = core.parallel(_num, jobs, chunk=1) if len(jobs) > 4 else [_num(j) for j in jobs]
     nvals = sum(len(t["vals"]) for t in tables)
